@@ -34,6 +34,30 @@ CLAIMS = {
              "(old&m)!=0; stored bytes stay in [0,255]; allocation is ceil(size/8) bytes; clear/as_string/num_bits_set cover the full "
              "range. Does not decide non-integer arguments.",
         design_ref="DESIGN.md section 4 C20"),
+    "C01": dict(
+        technique="normal-form agreement of add/check address expressions, who-may-write effect analysis, path-shape rules on the expanding scan",
+        text="Structural, near-sufficient: in contexts BloomFilter and BloomFilterOnDisk every reachable element store into the bit "
+             "array outside clear() is old|m, the array is rebound only by constructors/loaders; check_alt probes exactly the byte "
+             "index, mask and loop domain that add_alt sets and only a zero probe yields False; add/check hash with the same call; "
+             "the expanding filter scans all sub-filters, never removes one, inserts into the newest, builds all with the same "
+             "parameters; union is cell-wise OR over the full range; every loader path takes the payload from its input. Decides "
+             "these for all inputs/histories at once; does not decide determinism of user hash callables.",
+        design_ref="DESIGN.md section 4 C01"),
+    "C12": dict(
+        technique="normal-form comparison of combine expressions; full-range loop-domain rule against allocation lengths",
+        text="Structural part: union (Bloom, on-disk, counting) and count-min join store self-cell (op) operand-cell at the same "
+             "index with op = |, + (clamped), + (clamped) over exactly the allocated range, into a fresh result built from the "
+             "receiver's parameters (join: in place, adding the operand's total). The equality with a single-stream structure is the "
+             "consequence (with C01/C02 agreement), not a checked fact.",
+        design_ref="DESIGN.md section 4 C12, R-RANGE"),
+    "C13": dict(
+        technique="guard-dominance on enumerated paths, ordering-set decision tables for non-zero tests, mirror-comparison components, effects",
+        text="Structural, near-sufficient: in all 9 Bloom set operations the type test is the first decision (TypeError) and the "
+             "similarity test the second (None) before any allocation; the similarity test compares hash count, bit count and probe "
+             "hash; intersection keeps exactly positions set in both (a&b / both-non-zero table) over the full range; Jaccard is "
+             "|both|/|either| over the full range with 1.0 for an empty union (symmetric by normal form); join refuses foreign types "
+             "and mismatched geometry/hash before any store; no operation writes its operand. Does not decide the numeric value.",
+        design_ref="DESIGN.md section 4 C13"),
 }
 
 NA_DEFAULT = "check not built yet (build phase in progress; DESIGN.md section 4 gives the planned rule)"
